@@ -135,6 +135,137 @@ Definition EncStoreAction (a : store_action) (bs : bytes) : Prop :=
 Definition EncStoreFlags (l : list bytes) (bs : bytes) : Prop :=
   EncFlagList l bs \/ EncSepList EncFlag 32 l bs.
 
+(* ------------------------------------------------------------------ dates (RFC 3501 date, date-time) *)
+Definition month_name (m : N) : string := nth (N.to_nat (m - 1)) month_names ""%string.
+(* date-month: three letters, any case *)
+Definition EncMonth (m : N) (bs : bytes) : Prop := 1 <= m <= 12 /\ lower bs = s2b (month_name m).
+(* date-day-fixed = (SP DIGIT) / 2DIGIT *)
+Definition EncDayFixed (d : N) (bs : bytes) : Prop :=
+  (exists c, bs = [32; c] /\ is_digit_byte c = true /\ d = c - 48) \/ EncNumExact 2 d bs.
+(* date-time = DQUOTE date-day-fixed - date-month - date-year SP time SP zone DQUOTE; time = 2DIGIT:2DIGIT:2DIGIT;
+   zone = (+ / -) 4DIGIT; the AST keeps the sign and hh*3600+mm*60 *)
+Definition EncDateTime (dt : datetime) (bs : bytes) : Prop :=
+  exists ed em ey eh emi es sign ezh ezm zh zm,
+    bs = 34 :: ed ++ 45 :: em ++ 45 :: ey ++ 32 :: eh ++ 58 :: emi ++ 58 :: es ++ 32 :: sign :: ezh ++ ezm ++ [34] /\
+    EncDayFixed (d_day (dt_date dt)) ed /\ EncMonth (d_month (dt_date dt)) em /\
+    EncNumExact 4 (d_year (dt_date dt)) ey /\
+    EncNumExact 2 (dt_hour dt) eh /\ EncNumExact 2 (dt_min dt) emi /\ EncNumExact 2 (dt_sec dt) es /\
+    ((sign = 43 /\ dt_zneg dt = false) \/ (sign = 45 /\ dt_zneg dt = true)) /\
+    EncNumExact 2 zh ezh /\ EncNumExact 2 zm ezm /\ dt_zone dt = zh * 3600 + zm * 60.
+
+(* ------------------------------------------------------------------ ID (RFC 2971) *)
+Inductive EncIdParams : list (bytes * bytes) -> bytes -> Prop :=
+| EIP_nil : EncIdParams [] []
+| EIP_one k v ek ev : EncString k ek -> EncNString v ev -> EncIdParams [(k, v)] (ek ++ 32 :: ev)
+| EIP_cons k v ek ev l t :
+    EncString k ek -> EncNString v ev -> l <> [] -> EncIdParams l t ->
+    EncIdParams ((k, v) :: l) (ek ++ 32 :: ev ++ 32 :: t).
+
+(* APPEND: optional flag list (an empty list may also be left out) *)
+Definition EncAppendFlags (fl : list bytes) (bs : bytes) : Prop :=
+  (fl = [] /\ bs = []) \/ exists x, bs = x ++ [32] /\ EncFlagList fl x.
+Definition EncAppendDate (dt : option datetime) (bs : bytes) : Prop :=
+  match dt with
+  | None => bs = []
+  | Some d => exists x, bs = x ++ [32] /\ EncDateTime d x
+  end.
+
+(* ------------------------------------------------------------------ FETCH attributes *)
+(* header-list = ( header-fld-name *(SP header-fld-name) ), header-fld-name = astring *)
+Definition EncHeaderList (l : list bytes) (bs : bytes) : Prop :=
+  exists inner, bs = 40 :: inner ++ [41] /\ EncSepList EncAString 32 l inner.
+(* section-msgtext = HEADER / HEADER.FIELDS [.NOT] SP header-list / TEXT ; section-text adds MIME (first index true) *)
+Inductive EncMsgText : bool -> msgtext -> bytes -> Prop :=
+| EMT_header am k : EncKw "header" k -> EncMsgText am MTHeader k
+| EMT_text am k : EncKw "text" k -> EncMsgText am MTText k
+| EMT_mime k : EncKw "mime" k -> EncMsgText true MTMime k
+| EMT_fields am (neg : bool) l k1 k2 k3 el :
+    EncKw "header" k1 -> EncKw "fields" k2 ->
+    (if neg then exists x, k3 = 46 :: x /\ EncKw "not" x else k3 = []) -> EncHeaderList l el ->
+    EncMsgText am (MTHeaderFields neg l) (k1 ++ 46 :: k2 ++ k3 ++ 32 :: el).
+(* section-spec = section-msgtext / (section-part [. section-text]); section-part = nz-number *(. nz-number) *)
+Definition EncSection (s : section) (bs : bytes) : Prop :=
+  match s with
+  | SecEmpty => bs = []
+  | SecMsg m => EncMsgText false m bs
+  | SecPart part t =>
+      exists ep et, bs = ep ++ et /\ EncSepList EncNz 46 part ep /\
+                    match t with None => et = [] | Some m => exists x, et = 46 :: x /\ EncMsgText true m x end
+  end.
+(* partial = < number . nz-number > *)
+Definition EncPartial (p : option (N * N)) (bs : bytes) : Prop :=
+  match p with
+  | None => bs = []
+  | Some (o, c) => exists eo ec, bs = 60 :: eo ++ 46 :: ec ++ [62] /\ EncNum o eo /\ EncNz c ec
+  end.
+Inductive EncFetchAtt : fetch_att -> bytes -> Prop :=
+| EFA_envelope k : EncKw "envelope" k -> EncFetchAtt FEnvelope k
+| EFA_flags k : EncKw "flags" k -> EncFetchAtt FFlags k
+| EFA_internaldate k : EncKw "internaldate" k -> EncFetchAtt FInternalDate k
+| EFA_bodystructure k : EncKw "bodystructure" k -> EncFetchAtt FBodyStructure k
+| EFA_uid k : EncKw "uid" k -> EncFetchAtt FUid k
+| EFA_body k : EncKw "body" k -> EncFetchAtt FBody k
+| EFA_rfc822 k f : EncKw "rfc" k -> EncFold "822" f -> EncFetchAtt FRfc822 (k ++ f)
+| EFA_rfc822_header k f k2 : EncKw "rfc" k -> EncFold "822" f -> EncKw "header" k2 -> EncFetchAtt FRfc822Header (k ++ f ++ 46 :: k2)
+| EFA_rfc822_size k f k2 : EncKw "rfc" k -> EncFold "822" f -> EncKw "size" k2 -> EncFetchAtt FRfc822Size (k ++ f ++ 46 :: k2)
+| EFA_rfc822_text k f k2 : EncKw "rfc" k -> EncFold "822" f -> EncKw "text" k2 -> EncFetchAtt FRfc822Text (k ++ f ++ 46 :: k2)
+| EFA_section (peek : bool) s p k kp es ep :
+    EncKw "body" k -> (if peek then exists x, kp = 46 :: x /\ EncFold "PEEK" x else kp = []) ->
+    EncSection s es -> EncPartial p ep ->
+    EncFetchAtt (FBodySection peek s p) (k ++ kp ++ 91 :: es ++ 93 :: ep).
+(* fetch = FETCH SP sequence-set SP (ALL / FULL / FAST / fetch-att / ( fetch-att *(SP fetch-att) )) *)
+Definition EncFetchAtts (atts : list fetch_att) (bs : bytes) : Prop :=
+  (atts = [FAll] /\ EncKw "all" bs) \/ (atts = [FFull] /\ EncKw "full" bs) \/ (atts = [FFast] /\ EncKw "fast" bs) \/
+  (exists a, atts = [a] /\ EncFetchAtt a bs) \/
+  (exists inner, bs = 40 :: inner ++ [41] /\ EncSepList EncFetchAtt 32 atts inner).
+
+(* ------------------------------------------------------------------ SEARCH *)
+(* date = date-text / DQUOTE date-text DQUOTE ; date-text = date-day - date-month - date-year, date-day = 1*2DIGIT *)
+Definition EncDateText (d : date) (bs : bytes) : Prop :=
+  exists ed em ey, bs = ed ++ 45 :: em ++ 45 :: ey /\ EncNumUpTo 2 (d_day d) ed /\ EncMonth (d_month d) em /\
+                   EncNumExact 4 (d_year d) ey.
+Definition EncDate (d : date) (bs : bytes) : Prop :=
+  EncDateText d bs \/ exists x, bs = 34 :: x ++ [34] /\ EncDateText d x.
+
+Definition sk_flag_kw (k : sk_flag) : string :=
+  match k with
+  | KAll => "all" | KAnswered => "answered" | KDeleted => "deleted" | KFlagged => "flagged" | KNew => "new"
+  | KOld => "old" | KRecent => "recent" | KSeen => "seen" | KUnanswered => "unanswered" | KUndeleted => "undeleted"
+  | KUnflagged => "unflagged" | KUnseen => "unseen" | KDraft => "draft" | KUndraft => "undraft"
+  end.
+Definition sk_str_kw (k : sk_str) : string :=
+  match k with KBcc => "bcc" | KBody => "body" | KCc => "cc" | KFrom => "from" | KSubject => "subject"
+          | KText => "text" | KTo => "to" end.
+Definition sk_date_kw (k : sk_date) : string :=
+  match k with KBefore => "before" | KOn => "on" | KSince => "since" | KSentBefore => "sentbefore"
+          | KSentOn => "senton" | KSentSince => "sentsince" end.
+Definition sk_atom_kw (k : sk_atom) : string := match k with KKeyword => "keyword" | KUnkeyword => "unkeyword" end.
+Definition sk_num_kw (k : sk_num) : string := match k with KLarger => "larger" | KSmaller => "smaller" end.
+
+(* search-key (RFC 3501), the parenthesised list as a mutually defined tail *)
+Inductive EncSKey : skey -> bytes -> Prop :=
+| ESK_flag f k : EncKw (sk_flag_kw f) k -> EncSKey (SKFlag f) k
+| ESK_str f s k e : EncKw (sk_str_kw f) k -> EncAString s e -> EncSKey (SKStr f s) (k ++ 32 :: e)
+| ESK_date f d k e : EncKw (sk_date_kw f) k -> EncDate d e -> EncSKey (SKDate f d) (k ++ 32 :: e)
+| ESK_atom f a k e : EncKw (sk_atom_kw f) k -> EncAtom a e -> EncSKey (SKAtom f a) (k ++ 32 :: e)
+| ESK_num f n k e : EncKw (sk_num_kw f) k -> EncNum n e -> EncSKey (SKNum f n) (k ++ 32 :: e)
+| ESK_header f v k e1 e2 :
+    EncKw "header" k -> EncAString f e1 -> EncAString v e2 -> EncSKey (SKHeader f v) (k ++ 32 :: e1 ++ 32 :: e2)
+| ESK_uid s k e : EncKw "uid" k -> EncSeqSet s e -> EncSKey (SKUid s) (k ++ 32 :: e)
+| ESK_seq s e : EncSeqSet s e -> EncSKey (SKSeqSet s) e
+| ESK_not x k e : EncKw "not" k -> EncSKey x e -> EncSKey (SKNot x) (k ++ 32 :: e)
+| ESK_or a b k e1 e2 :
+    EncKw "or" k -> EncSKey a e1 -> EncSKey b e2 -> EncSKey (SKOr a b) (k ++ 32 :: e1 ++ 32 :: e2)
+| ESK_list a l e t : EncSKey a e -> EncSKeyTail l t -> EncSKey (SKList (a :: l)) (40 :: e ++ t ++ [41])
+with EncSKeyTail : list skey -> bytes -> Prop :=
+| ESKT_nil : EncSKeyTail [] []
+| ESKT_cons a l e t : EncSKey a e -> EncSKeyTail l t -> EncSKeyTail (a :: l) (32 :: e ++ t).
+
+(* search = SEARCH [SP CHARSET SP astring] 1*(SP search-key) *)
+Definition EncSearchArgs (cs : bytes) (keys : list skey) (bs : bytes) : Prop :=
+  (cs = [] /\ keys <> [] /\ EncSKeyTail keys bs) \/
+  (exists k e t, bs = 32 :: k ++ 32 :: e ++ t /\ EncKw "charset" k /\ EncAString cs e /\ keys <> [] /\ EncSKeyTail keys t).
+
 (* the text after the tag and its SP, up to (not including) the final CRLF *)
 Inductive EncSel : selcmd -> bytes -> Prop :=
 | ES_copy (mv : bool) s m k e1 e2 :
@@ -144,7 +275,12 @@ Inductive EncSel : selcmd -> bytes -> Prop :=
     EncKw "store" k -> EncSeqSet s e1 -> EncStoreAction a ea -> EncFold "FLAGS" kf ->
     (if silent then exists x, ks = 46 :: x /\ EncFold "SILENT" x else ks = []) ->
     EncStoreFlags fl ef ->
-    EncSel (SStore s a silent fl) (k ++ 32 :: e1 ++ 32 :: ea ++ kf ++ ks ++ 32 :: ef).
+    EncSel (SStore s a silent fl) (k ++ 32 :: e1 ++ 32 :: ea ++ kf ++ ks ++ 32 :: ef)
+| ES_fetch s atts k e1 e2 :
+    EncKw "fetch" k -> EncSeqSet s e1 -> EncFetchAtts atts e2 ->
+    EncSel (SFetch s atts) (k ++ 32 :: e1 ++ 32 :: e2)
+| ES_search cs keys k e :
+    EncKw "search" k -> EncSearchArgs cs keys e -> EncSel (SSearch cs keys) (k ++ e).
 
 Inductive EncCmd : cmd -> bytes -> Prop :=
 | EC_noarg k e : EncKw (noarg_kw k) e -> EncCmd (CNoArg k) e
@@ -162,7 +298,12 @@ Inductive EncCmd : cmd -> bytes -> Prop :=
 | EC_sel c e : EncSel c e -> EncCmd (CSel false c) e
 | EC_uid c k e : EncKw "uid" k -> EncSel c e -> EncCmd (CSel true c) (k ++ 32 :: e)
 | EC_uid_expunge s k1 k2 e :
-    EncKw "uid" k1 -> EncKw "expunge" k2 -> EncSeqSet s e -> EncCmd (CUidExpunge s) (k1 ++ 32 :: k2 ++ 32 :: e).
+    EncKw "uid" k1 -> EncKw "expunge" k2 -> EncSeqSet s e -> EncCmd (CUidExpunge s) (k1 ++ 32 :: k2 ++ 32 :: e)
+| EC_idget k e : EncKw "id" k -> EncFold "NIL" e -> EncCmd CIdGet (k ++ 32 :: e)
+| EC_idset l k e : EncKw "id" k -> EncIdParams l e -> EncCmd (CIdSet l) (k ++ 32 :: 40 :: e ++ [41])
+| EC_append m fl dt lit k em efl edt elit :
+    EncKw "append" k -> EncMailbox m em -> EncAppendFlags fl efl -> EncAppendDate dt edt -> EncLiteral lit elit ->
+    EncCmd (CAppend m fl dt lit) (k ++ 32 :: em ++ 32 :: efl ++ edt ++ elit).
 
 (* tag = 1*<any ASTRING-CHAR except plus>, and not the word DONE *)
 Definition EncTag (t : bytes) : Prop :=
